@@ -67,7 +67,7 @@ Section Order.
     intros H E.
     assert (Hle : (lo <= i)%nat) by (eapply SB_le; eauto).
     assert (Keep : SB lo (win st) (S i)) by (eapply SB_hi; [|exact H]; lia).
-    destruct e as [cls obj | sid' level timeout now | now]; cbn [spec_step] in E.
+    destruct e as [cls obj | sid' level timeout now | now | |]; cbn [spec_step] in E.
     - destruct st as [s|]; [|inversion E; subst; exists lo; split; cbn; lia].
       destruct (permitted table (sp_level s) (mk_ev i cls obj)); inversion E; subst; exists lo; (split; [cbn; lia|]); auto.
       cbn [win sp_window]. eapply SB_app; [exact H|]. cbn. lia.
@@ -86,6 +86,8 @@ Section Order.
         exists i. split; [|cbn; lia]. unfold log. cbn. rewrite app_nil_r. apply SB_content. exact H.
       + destruct (now - sp_accessed s >? 10 * sp_timeout s); inversion E; subst; exists lo; (split; [cbn; lia|]); auto.
         cbn. lia.
+    - inversion E; subst. exists lo. split; [cbn; lia | auto].
+    - inversion E; subst. exists lo. split; [cbn; lia | auto].
   Qed.
 
   Lemma run_order : forall tr lo i st st' outs,
